@@ -27,7 +27,11 @@ impl Emitter for FilesEmitter {
         // Write text directly over original file if there is a diff.
         let filename = ensure_real_path(filename);
         if original_text != formatted_text {
+            #[cfg(rustfmt_verif)]
+            crate::verif::fault("files.write")?;
             fs::write(filename, formatted_text)?;
+            #[cfg(rustfmt_verif)]
+            crate::verif::fs_done("files.write", filename, None);
             if self.print_misformatted_file_names {
                 writeln!(output, "{}", filename.display())?;
             }
